@@ -40,6 +40,11 @@ pub struct SchedConvCase {
     /// flushed the whole response, keeps the writer until the successor has been delivered
     #[serde(default)]
     pub hold_writer: Option<usize>,
+    /// per request index (cyclic): virtual milliseconds its handler lets pass between the end of
+    /// its reading and its finishing action (virtual time only advances when every other task is
+    /// blocked: whatever else can run, runs first)
+    #[serde(default)]
+    pub linger: Vec<u16>,
     pub tape: Vec<u8>,
 }
 
@@ -208,6 +213,7 @@ pub fn run_sched_conv(sc: &SchedConvCase) -> SchedObs {
             let sc_hold_writer = sc.hold_writer;
             let (late3, due3, heads3, client5) = (late2.clone(), due.clone(), heads0.clone(), client.clone());
             let enter_order = sc.enter_order.clone();
+            let linger = sc.linger.clone();
             handlers.push(shuttle::thread::spawn(move || {
                 if collect_first {
                     // every request of the group must become available while none is answered
@@ -245,7 +251,11 @@ pub fn run_sched_conv(sc: &SchedConvCase) -> SchedObs {
                     let hold = hold_after_read;
                     let col4 = col3.clone();
                     let client4 = client3.clone();
+                    let linger_ms = if linger.is_empty() { 0 } else { linger[idx % linger.len()] };
                     let before = move || {
+                        if linger_ms > 0 {
+                            rt::thread::sleep(std::time::Duration::from_millis(linger_ms as u64));
+                        }
                         if hold == Some(idx) {
                             // the body has been read to its end: the successor must now arrive
                             // although this request is still unanswered
@@ -448,7 +458,7 @@ pub fn c01_strategy() -> BoxedStrategy<SchedConvCase> {
                 conv.reqs.push(r);
             }
             let script = vec![Step::Send { from: 0, to: 0 }, Step::HalfClose];
-            SchedConvCase { case: ConvCase { conv, progs, script, transport: Transport::Mem }, groups, collect_first: false, enter_order: if own_tasks { order } else { None }, cuts, hold_after_read: None, feed: None, intr: if tape.len() % 4 == 3 { 2 + (tape.len() % 3) as u8 } else { 0 }, hold_writer: None, tape }
+            SchedConvCase { case: ConvCase { conv, progs, script, transport: Transport::Mem }, groups, collect_first: false, enter_order: if own_tasks { order } else { None }, cuts, hold_after_read: None, feed: None, intr: if tape.len() % 4 == 3 { 2 + (tape.len() % 3) as u8 } else { 0 }, hold_writer: None, linger: vec![], tape }
         })
         .boxed()
 }
@@ -482,6 +492,94 @@ pub fn c01_oracle(sc: &SchedConvCase, so: &SchedObs) -> vcore::runner::Verdict {
         .class_if(sc.case.progs.iter().any(|p| matches!(p.finish, Finish::Drop)), "drop")
         .class_if(sc.case.progs.iter().any(|p| matches!(p.finish, Finish::WriterUnused)), "writer-unused")
         .class_if(view.msgs.iter().any(|m| m.chunks > 0), "chunked-response");
+    Verdict::Pass(g)
+}
+
+// ------------------------------------------------------------------------------------------
+// C18: interim responses among concurrent handlers
+
+/// 2-4 requests on one connection, some with `Expect: 100-continue`, each handled by its own task;
+/// handlers read (or do not read) the body, let some virtual time pass, then answer.  The client
+/// is an eager one (everything is sent up front), which a server has to cope with.
+pub fn c18_conn_strategy() -> BoxedStrategy<SchedConvCase> {
+    (2usize..=4)
+        .prop_flat_map(|n| {
+            (
+                proptest::collection::vec(
+                    (
+                        proptest::bool::weighted(0.6),
+                        proptest::sample::select(vec![0usize, 1, 5, 700, 1024, 1025, 3000]),
+                        0u8..6,
+                        proptest::sample::select(vec![0usize, 3, 1000, 1025, 5000]),
+                        proptest::bool::weighted(0.3),
+                        any::<u32>(),
+                    ),
+                    n,
+                ),
+                proptest::collection::vec(prop_oneof![2 => Just(0u16), 2 => 1u16..5], 1..5),
+                proptest::collection::vec(0usize..900, 0..3),
+                proptest::option::weighted(0.3, proptest::collection::vec(prop_oneof![Just(0u16), 1u16..4], 1..4)),
+                tape_strategy(200),
+            )
+        })
+        .prop_map(|(items, linger, cuts, feed, tape)| {
+            let n = items.len();
+            let mut conv = Conversation::default();
+            let mut progs = vec![];
+            for (i, (expect, blen, read_kind, resp_len, chunked_resp, mask)) in items.into_iter().enumerate() {
+                let framing = if !expect && blen == 0 { Framing::None } else { Framing::Length { n: blen } };
+                let method = if matches!(framing, Framing::None) { "GET" } else { "POST" };
+                // an unread streamed body of an unanswered request holds the parser: a handler that
+                // does not read answers without waiting for anybody (lingering is fine)
+                let read = match read_kind {
+                    0 | 1 | 2 => ReadPlan::ToEof { buf: 600 + 100 * read_kind as usize, extra: read_kind },
+                    3 => ReadPlan::Touch { calls: 2 },
+                    _ => ReadPlan::None,
+                };
+                conv.reqs.push(gen::build_req(i as u32, method.into(), String::new(), "HTTP/1.1", vec![Hdr::new("Host", "h")], framing, None, 1, mask & 0xff, None, expect));
+                progs.push(Prog { read, finish: Finish::Respond { status: 200, body_len: resp_len, declared: !chunked_resp, threshold: None } });
+            }
+            let script = vec![Step::Send { from: 0, to: 0 }, Step::HalfClose];
+            let groups = (0..n).map(|i| vec![i]).collect();
+            SchedConvCase { case: ConvCase { conv, progs, script, transport: Transport::Mem }, groups, collect_first: false, enter_order: None, cuts, hold_after_read: None, feed, intr: 0, hold_writer: None, linger, tape }
+        })
+        .boxed()
+}
+
+pub fn c18_conn_oracle(sc: &SchedConvCase, so: &SchedObs) -> vcore::runner::Verdict {
+    use vcore::runner::{Good, Verdict};
+    if let Some(v) = exec_trouble("C18", "concurrent-handlers", so) {
+        return v;
+    }
+    let exp = expect(&sc.case);
+    if let Err(v) = prefix("C18/concurrent-handlers", comp_delivery_sequence(&sc.case, &exp, &so.obs)) {
+        return v;
+    }
+    let view = client_view(&so.obs.client, &exp);
+    if let Err(v) = prefix("C18/concurrent-handlers", comp_client_stream(&exp, &so.obs, &view, exp.msgs.len(), true)) {
+        return v;
+    }
+    for m in &view.msgs {
+        if m.status < 200 && m.status != 100 {
+            return vcore::runner::fail("C18/concurrent-handlers/interim-not-100", format!("interim status {}", m.status));
+        }
+    }
+    if let Err(v) = prefix("C18/concurrent-handlers", comp_bodies(&sc.case, &so.obs)) {
+        return v;
+    }
+    if !so.obs.client_eof {
+        return vcore::runner::fail("C18/concurrent-handlers/no-end-of-stream", "all requests answered and the client half-closed, but the server never closed its sending side");
+    }
+    let n_expect = exp.msgs.iter().filter(|m| m.interim_before).count();
+    // non-trivial: an interim response is due for a request that is not the first one
+    let later = exp.msgs.iter().any(|m| m.interim_before && m.req_idx > 0);
+    let mut g = if later { Good { nontrivial: Some(so.exec.stats.trace_hash), classes: vec![], extra_evals: 0 } } else { Good::trivial() };
+    g = g
+        .class(format!("n={}", sc.case.conv.reqs.len()))
+        .class(format!("interims-due={}", n_expect))
+        .class_if(so.exec.stats.preemptions > 0, "preempted")
+        .class_if(sc.feed.is_some(), "paced-client")
+        .class_if(sc.linger.iter().any(|l| *l > 0), "lingering-handler");
     Verdict::Pass(g)
 }
 
@@ -565,7 +663,7 @@ pub fn c11_strategy() -> BoxedStrategy<SchedConvCase> {
                     // read the streamed body to its end, keep the request, take the successor
                     let mut groups: Vec<Vec<usize>> = vec![(0..=p).collect()];
                     groups.push((p + 1..n).collect());
-                    SchedConvCase { case, groups, collect_first: false, enter_order: None, cuts, hold_after_read: Some(p), feed: None, intr: 0, hold_writer: None, tape }
+                    SchedConvCase { case, groups, collect_first: false, enter_order: None, cuts, hold_after_read: Some(p), feed: None, intr: 0, hold_writer: None, linger: vec![], tape }
                 }
                 (Some(p), 2) if p + 1 < n => {
                     // answer the streamed one (its handler reads the body), successors follow: plain pipeline on two tasks;
@@ -589,7 +687,7 @@ pub fn c11_strategy() -> BoxedStrategy<SchedConvCase> {
                         hold_writer = Some(p);
                     }
                     let groups: Vec<Vec<usize>> = vec![(0..=p).collect(), (p + 1..n).collect()];
-                    SchedConvCase { case, groups, collect_first: false, enter_order: None, cuts, hold_after_read: None, feed: None, intr: 0, hold_writer, tape }
+                    SchedConvCase { case, groups, collect_first: false, enter_order: None, cuts, hold_after_read: None, feed: None, intr: 0, hold_writer, linger: vec![], tape }
                 }
                 _ => {
                     // collect `avail` requests before answering any
@@ -597,7 +695,7 @@ pub fn c11_strategy() -> BoxedStrategy<SchedConvCase> {
                     if avail < n {
                         groups.push((avail..n).collect());
                     }
-                    SchedConvCase { case, groups, collect_first: true, enter_order: None, cuts, hold_after_read: None, feed: None, intr: 0, hold_writer: None, tape }
+                    SchedConvCase { case, groups, collect_first: true, enter_order: None, cuts, hold_after_read: None, feed: None, intr: 0, hold_writer: None, linger: vec![], tape }
                 }
             }
         })
